@@ -27,6 +27,7 @@ RULESETS = {
     "C08": "c08",
     "C10": "c10",
     "C11": "c11",
+    "C13": "c13",
     "C14": "c14",
     "C15": "c15",
     "C16": "c16",
